@@ -178,39 +178,47 @@ def check_bin(r, b, tag):
     def eff(region, kinds):
         return [cs for k, cs in effects if cs.bb in region and k in kinds]
 
-    # Some(path)
+    # Some(path): File::create(path) + write!(file, "{}", value), or the equivalent std::fs::write(path, value)
     creates = [cs for cs in eff(some_only, ("fs-write",))]
-    ok = len(creates) == 1 and cname(creates[0].node) == "std::fs::File::create"
-    why = "exactly one File::create in the Some(path) alternative" if ok else "file-system writes in the Some(path) alternative: %s" % [cname(c.node) for c in creates]
+    struct_terms = []
+    via_fs_write = len(creates) == 1 and cname(creates[0].node) == "std::fs::write"
+    ok = len(creates) == 1 and cname(creates[0].node) in ("std::fs::File::create", "std::fs::write")
+    why = "exactly one File::create (or fs::write) in the Some(path) alternative" if ok else "file-system writes in the Some(path) alternative: %s" % [cname(c.node) for c in creates]
     if ok:
         pa = strip(term_of(run_b, creates[0].node["args"][0]))
         if not any(_mentions_field(st, "output_path") for st in mir.subterms(pa)):
-            ok, why = False, "File::create is given %s, not the named output path" % term_s(pa)[:80]
+            ok, why = False, "the output file is opened at %s, not the named output path" % term_s(pa)[:80]
     r.ob("R12.3.file-branch" + sfx, run_b.name, ok, why, site=creates[0] if creates else None, key="R12.3|create" + sfx)
     r.ob("R12.3.file-branch-no-stdout" + sfx, run_b.name, not eff(some_only, ("stdout",)),
          "nothing is printed to stdout when an output file is named" if not eff(some_only, ("stdout",)) else "stdout is written although an output file is named",
          site=(eff(some_only, ("stdout",)) or [None])[0], key="R12.3|some-stdout" + sfx)
     writes = eff(some_only, ("write",))
-    okw = len(writes) == 1 and cname(writes[0].node) == "std::io::Write::write_fmt"
-    whyw = "one write_fmt on the created file"
-    struct_terms = []
-    if okw:
-        w = writes[0]
-        f = display_args(run_b, w.node["args"][1])
-        recv = strip(term_of(run_b, w.node["args"][0]))
-        made = creates and any(st[0] == "call" and len(st) > 3 and st[3] == creates[0] for st in mir.subterms(recv))
-        if f is None:
-            okw, whyw = False, "write_fmt arguments not recognised"
-        elif [p if isinstance(p, str) else "{}" for p in f[0]] != ["{}"] or len(f[1]) != 1 or f[1][0][0] != "display":
-            okw, whyw = False, "file content template is %r, expected exactly `{}`" % fmt.template_s(f[0])
-        elif not made:
-            okw, whyw = False, "write_fmt does not write to the file returned by File::create"
-        else:
-            struct_terms.append(("file", w, f[1][0][1]))
-            whyw = "write!(file, \"{}\", value) on the file returned by File::create"
+    if via_fs_write:
+        okw = not writes
+        whyw = "std::fs::write(path, value) writes exactly the value" if okw else "additional writes next to fs::write"
+        if okw:
+            struct_terms.append(("file", creates[0], strip(term_of(run_b, creates[0].node["args"][1]), mir.VALUE_PRESERVING + ("std::string::String::into_bytes", "std::string::String::as_bytes"))))
+        r.ob("R12.3.file-content-template" + sfx, run_b.name, okw, whyw, site=creates[0], key="R12.3|write" + sfx)
     else:
-        whyw = "writes in the Some(path) alternative: %s" % [cname(c.node) for c in writes]
-    r.ob("R12.3.file-content-template" + sfx, run_b.name, okw, whyw, site=writes[0] if writes else None, key="R12.3|write" + sfx)
+        okw = len(writes) == 1 and cname(writes[0].node) == "std::io::Write::write_fmt"
+        whyw = "one write_fmt on the created file"
+        if okw:
+            w = writes[0]
+            f = display_args(run_b, w.node["args"][1])
+            recv = strip(term_of(run_b, w.node["args"][0]))
+            made = creates and any(st[0] == "call" and len(st) > 3 and st[3] == creates[0] for st in mir.subterms(recv))
+            if f is None:
+                okw, whyw = False, "write_fmt arguments not recognised"
+            elif [p if isinstance(p, str) else "{}" for p in f[0]] != ["{}"] or len(f[1]) != 1 or f[1][0][0] != "display":
+                okw, whyw = False, "file content template is %r, expected exactly `{}`" % fmt.template_s(f[0])
+            elif not made:
+                okw, whyw = False, "write_fmt does not write to the file returned by File::create"
+            else:
+                struct_terms.append(("file", w, f[1][0][1]))
+                whyw = "write!(file, \"{}\", value) on the file returned by File::create"
+        else:
+            whyw = "writes in the Some(path) alternative: %s" % [cname(c.node) for c in writes]
+        r.ob("R12.3.file-content-template" + sfx, run_b.name, okw, whyw, site=writes[0] if writes else None, key="R12.3|write" + sfx)
     # None
     prints = eff(none_only, ("stdout",))
     okp = len(prints) == 1 and cname(prints[0].node) == "std::io::_print"
